@@ -140,7 +140,14 @@ func c02Run(c *fw.Ctx) {
 	r := c.R
 	st := time.Now()
 	gs := compileXCandidates(c, n, n*40, func(i int) *gram.XGrammar {
-		xg := gram.RandXGrammar(r, gram.XGenOptions{FixWS: i%2 == 0})
+		var xg *gram.XGrammar
+		if i == 0 {
+			// one designed grammar per case guarantees the rarely generated shapes
+			xg = gram.DesignedXGrammar(r, c.Case%2 == 0)
+			c.Count("designed_grammars", 1)
+		} else {
+			xg = gram.RandXGrammar(r, gram.XGenOptions{FixWS: i%2 == 0})
+		}
 		optv := r.Intn(8)
 		xg.Opts = tableOpts(optv)
 		c.Count(fmt.Sprintf("generated_with_optvec_%d", optv), 1)
@@ -260,7 +267,7 @@ func c02Run(c *fw.Ctx) {
 func init() {
 	fw.Register(&fw.Check{
 		ID: "C02",
-		Rule: "each case: random extended grammars (guarded alternatives; optionals, nested choices, +/* lists with and without separators, nullable nonterminals; '-> Node' annotations on nonterminal definitions, on rules, on nested parts, on alternatives of nested choices, on list elements, on optional parts, on empty rules), half with fixWhitespace; without fixWhitespace every sequence ends with a token so that 'first to last token' is unambiguous. Grammars the compiler rejects (conflicts etc.) are discarded. Sentences are sampled top-down from the extended grammar together with the expected events (post-order over rule applications, in-rule annotations inner-first/left-to-right then the rule-level node; node = first..last token of its yield, empty node at the following token), rendered with irregular whitespace, and the recorded listener sequence of the generated parser must be identical (type names and byte ranges). Grammar non-trivial/distinct: >=3 node types and >=5 sentences with >=3 events compared",
+		Rule: "each case: random extended grammars (guarded alternatives; optionals, nested choices, +/* lists with and without separators, nullable nonterminals; '-> Node' annotations on nonterminal definitions, on rules, on nested parts, on alternatives of nested choices, on list elements, on optional parts, on empty rules), half with fixWhitespace; without fixWhitespace every sequence ends with a token so that 'first to last token' is unambiguous. Grammars the compiler rejects (conflicts etc.) are discarded; the first candidate of every case is a designed grammar (twin lists differing only in the arrow name, a nonterminal nullable through an action inside an annotated rule, a no-eoi input with an in-rule arrow) that must compile. Sentences are sampled top-down from the extended grammar together with the expected events (post-order over rule applications, in-rule annotations inner-first/left-to-right then the rule-level node; node = first..last token of its yield, empty node at the following token), rendered with irregular whitespace, and the recorded listener sequence of the generated parser must be identical (type names and byte ranges). Grammar non-trivial/distinct: >=3 node types and >=5 sentences with >=3 events compared",
 		Assumptions: []string{"the generated lexer tokenizes space-separated literals correctly (C11)", "conflict-freeness taken from the compiler (C03), hence the sampled derivation is the unique one"},
 		Cases: func(tier string) int {
 			if tier == "thorough" {
@@ -272,6 +279,6 @@ func init() {
 		Run:              func(c *fw.Ctx) { withHookMonitor(c, func() { c02Run(c) }) },
 		CPUBudget:        900,
 		MinNontrivial:    func(string) int { return 20 },
-		RequiredCounters: []string{"grammars_with_twin_lists", "hook_compiles_monitored", "events_compared", "empty_nodes_compared", "grammars_fixWhitespace", "grammars_plain_ranges"},
+		RequiredCounters: []string{"designed_grammars", "grammars_with_twin_lists", "hook_compiles_monitored", "events_compared", "empty_nodes_compared", "grammars_fixWhitespace", "grammars_plain_ranges"},
 	})
 }
